@@ -64,3 +64,8 @@ Fixpoint runs_ok (s : src) (rs : list (N * N * N)) (first : bool) (cur pos elems
   end.
 Definition regions_ok (s : src) (fileoff elemsz : N) (rs : list (N * N * N)) : bool :=
   runs_ok s rs true (s_start s) fileoff elemsz.
+
+(** ground truth of an end-to-end case: the set of frames the generator stored (or marked as
+    RAM), as a list of half-open runs [a, b) *)
+Definition truth_present (runs : list (N * N)) (p : N) : bool :=
+  existsb (fun r => (fst r <=? p) && (p <? snd r)) runs.
